@@ -23,6 +23,8 @@ def run(pid, tier):
     S.stray_wake(chk, col, bindir, tier)
     S.faults(chk, col, bindir, tier)
     S.big_batches(chk, col, bindir, tier)
+    # --- B2 at algorithm level: the free-running thread lives are behaviours of the model
+    M.alg_validate(chk, col, cap=400 if tier == "quick" else 3000)
     if tier != "quick":
         rb = T.build(release=True)
         M.replay_tours(chk, col, rb, "quick", tag="-release")
@@ -30,6 +32,14 @@ def run(pid, tier):
         S.stray_wake(chk, col, rb, "quick", release=True, tag="-release")
         S.faults(chk, col, rb, "quick", release=True, tag="-release")
         S.big_batches(chk, col, rb, tier, release=True, tag="-release")
+        # the other two link modes of the repository's runners (static, static PIE), release
+        for mode in ("static", "static-pie"):
+            mb = T.build(release=True, mode=mode)
+            M.replay_tours(chk, col, mb, "quick", tag="-" + mode)
+            S.free_running(chk, col, mb, "quick", release=True, tag="-" + mode)
+            S.stray_wake(chk, col, mb, "quick", release=True, tag="-" + mode)
+            S.faults(chk, col, mb, "quick", release=True, tag="-" + mode)
+        chk.extra["link_modes"] = ["dynamic PIE debug", "dynamic PIE release", "static release", "static-pie release"]
     return finish(chk, col, pid)
 
 
@@ -114,6 +124,19 @@ def selftest(pid="C05"):
     cases.append(("no fin before ret", without(good[0], lambda e: e["e"] == "fin"), "join_returned_before_closure_finished"))
     cases.append(("panic + some", changed(good[2], lambda e: e["e"] == "ret", res="some"), "join_some_but_closure_panicked"))
     cases.append(("timeout", good[0][:8] + [{"e": "timeout", "op": "join"}], "hang_in_join"))
+    # algorithm-level judge: the recorded arrivals are accepted, a permuted record is not
+    from checks import thr_model as M
+    import types
+    good_t = order[0]
+    bad_t = copy.copy(good_t)
+    bad_t.arr_t = list(good_t.arr_t)
+    i10 = [i for i, (p_, _) in enumerate(bad_t.arr_t) if p_ == "10"][0]
+    bad_t.arr_t[i10], bad_t.arr_t[i10 + 1] = (bad_t.arr_t[i10 + 1][0], bad_t.arr_t[i10][1]), (bad_t.arr_t[i10][0], bad_t.arr_t[i10 + 1][1])
+    fake = types.SimpleNamespace(alg=[(r, good_t), (r, bad_t)])
+    r.info = info
+    tot, acc = M.alg_validate(chk, fake, tag="-selftest")
+    alg_ok = (tot == 2 and acc == 1)
+    print("selftest %-22s expected %-40s got %s %s" % ("alg good+permuted", "1 of 2 accepted", "%d of %d" % (acc, tot), "ok" if alg_ok else "WRONG"))
     verdicts, n = T.judge(chk, "selftest", [(c[0], c[1]) for c in cases])
     bad = 0
     for i, (name, evs, want) in enumerate(cases):
@@ -121,5 +144,6 @@ def selftest(pid="C05"):
         ok = (want is None and not got) or (want is not None and want in got)
         print("selftest %-22s expected %-40s got %s %s" % (name, want, got, "ok" if ok else "WRONG"))
         bad += 0 if ok else 1
-    print("selftest: %d case(s), %d wrong" % (len(cases), bad))
+    bad += 0 if alg_ok else 1
+    print("selftest: %d case(s), %d wrong" % (len(cases) + 1, bad))
     return 0 if bad == 0 else 2
